@@ -36,7 +36,7 @@ def into_check(target, k, cap):
 
 def h(ty, target, src, n, t, c, owners, counts, k, cap, unwind=None):
     tag = f"{target}_pre{k}_cap{cap}"
-    uw = unwind or (34 if (ty == "M" and (target == "split" or src in ("iterf",))) else None)
+    uw = unwind or (34 if (ty == "M" and (target == "split" or src in ("iterf", "sched"))) else None)
     return collect_harness("c06", "collect_into", ty, src, n, t, c, owners, counts, check=into_check(target, k, cap), tag=tag, unwind=uw)
 
 
@@ -49,15 +49,19 @@ def harnesses(tier, seed):
         for target in ("vec", "fixed", "split"):
             for owners in ([1, 0], [0, 0]):
                 # spare capacity: none / some but less than the input / enough
-                for (k, cap) in ((0, 0), (2, 2), (1, 8), (1, 2), (0, 1)):
-                    if target == "split" and (k, cap) in ((1, 2), (0, 1)):
+                for (k, cap_q) in ((0, 0), (2, 2), (1, 8), (1, 2), (0, 1)):
+                    if target == "split" and (k, cap_q) in ((1, 2), (0, 1)):
                         continue
-                    hs.append(h("M", target, "slice", n, 2, 1, owners, ones, k, cap))
+                    hs.append(h("M", target, "slice", n, 2, 1, owners, ones, k, cap_q))
         # map-only, unknown length: the bridge through SplitVec
         for target in ("vec", "fixed", "split"):
             for t in (1, 2):
-                for (k, cap) in ((0, 0), (1, 4)):
-                    hs.append(h("M", target, "iterf", n, t, 1, None, ones, k, max(cap, k + n) if target == "fixed" else cap))
+                for (k, cap_q) in ((0, 0), (1, 4)):
+                    hs.append(h("M", target, "iterf", n, t, 1, None, ones, k, max(cap_q, k + n) if target == "fixed" else cap_q))
+        # the same bridge with the source handed out by every owner table (iterator-backed source under the schedule model)
+        for target in ("vec", "fixed", "split"):
+            for owners in owner_tables(2, 2, 1):
+                hs.append(h("M", target, "sched", n, 2, 1, owners, ones, 1, 4))
         # filtering kernels push after the existing elements
         for ty, counts in (("MF", (1, 1)), ("FMF", (0, 1)), ("FLF", (2, 1))):
             for target in ("vec", "fixed", "split"):
@@ -65,22 +69,30 @@ def harnesses(tier, seed):
             hs.append(h(ty, "vec", "iterf", n, 2, 1, None, counts, 1, 8))
             hs.append(h(ty, "vec", "slice", n, 1, 1, None, counts, 2, 2))
     else:
+        light, heavy = [], []
         for n in (2, 3):
             for target in ("vec", "fixed", "split"):
                 for (t, c) in ((2, 1), (2, 2)):
                     for owners in owner_tables(n, t, c):
-                        for (k, cap) in ((0, 0), (2, 2), (1, 8), (2, 16), (1, 2), (0, 1), (2, 3)):
-                            hs.append(h("M", target, "slice", n, t, c, owners, tuple([1] * n), k, cap))
+                        for (k, cap_) in ((0, 0), (2, 2), (1, 8), (2, 16), (1, 2), (0, 1), (2, 3)):
+                            if target == "split" and cap_ < k + n and (k, cap_) != (0, 0):
+                                continue
+                            light.append(h("M", target, "slice", n, t, c, owners, tuple([1] * n), k, cap_))
+                    for owners in owner_tables(n, t, 1):
+                        for (k, cap_) in ((0, 0), (1, 4), (2, 2)):
+                            light.append(h("M", target, "sched", n, t, 1, owners, tuple([1] * n), k, cap_))
                 for src in ("iterf", "iter"):
                     for t in (1, 2):
-                        for (k, cap) in ((0, 0), (1, 4), (2, 2)):
-                            hs.append(h("M", target, src, n, t, 1, None, tuple([1] * n), k, max(cap, k + n) if target == "fixed" else cap))
+                        for (k, cap_) in ((0, 0), (1, 4), (2, 2)):
+                            light.append(h("M", target, src, n, t, 1, None, tuple([1] * n), k, cap_))
             for ty in ("MF", "FMF", "FLF"):
+                bucket = heavy if ty == "FLF" else light
                 cvs = [cv for cv in count_vectors(ty, n) if sum(cv) > 0][:6]
                 for counts in cvs:
                     for target in ("vec", "fixed", "split"):
                         for owners in owner_tables(n, 2, 1)[:4]:
-                            hs.append(h(ty, target, "slice", n, 2, 1, owners, counts, 1, 8))
-                        hs.append(h(ty, target, "iterf", n, 2, 1, None, counts, 1, 8))
-                        hs.append(h(ty, target, "slice", n, 1, 1, None, counts, 2, 2))
+                            bucket.append(h(ty, target, "slice", n, 2, 1, owners, counts, 1, 8))
+                        bucket.append(h(ty, target, "iterf", n, 2, 1, None, counts, 1, 8))
+                        bucket.append(h(ty, target, "slice", n, 1, 1, None, counts, 2, 2))
+        hs = cap(light, 600, seed) + cap(heavy, 40, seed)
     return hs
